@@ -26,7 +26,7 @@ APPLIES = {   # attribute -> kinds it applies to (KMIP attribute tables)
 
 def plan(tier):
     return {
-        'level': 'exploration', 'shards': 16, 'budget_s': 70 if tier == 'quick' else 700,
+        'level': 'exploration', 'shards': 16, 'budget_s': 120 if tier == 'quick' else 700,
         'rule': 'stores of 0-30 objects of mixed type/owner/policy/state/date (virtual clock gives equal '
                 'and distinct dates); Locate with each of the 13 filter attributes alone and random '
                 'conjunctions, values drawn from stored objects and at random, every requester class, '
@@ -42,7 +42,7 @@ def plan(tier):
 
 
 def cases(tier, seed):
-    n = 48 if tier == 'quick' else 640
+    n = 192 if tier == 'quick' else 1280
     return [{'hist': i} for i in range(n)]
 
 
